@@ -392,11 +392,65 @@ theorem cfg_update (s : State) (h : Int) (block : List (Bytes × Nat)) (pre post
     · exact h2
   · exact h2
 
+/-! ### sender bookkeeping leaves everything the invariants look at alone -/
+
+theorem recordSender_map (s : State) (tx : Bytes) (p : Nat) :
+    (recordSender s tx p).txs.map (·.tx) = s.txs.map (·.tx) := by
+  simp only [recordSender, List.map_map]
+  apply List.map_congr_left
+  intro e _
+  simp only [Function.comp]
+  split
+  · split <;> rfl
+  · rfl
+
+theorem recordSender_has (s : State) (tx : Bytes) (p : Nat) :
+    ∀ e ∈ (recordSender s tx p).txs, e.tx = tx → p ∈ e.senders := by
+  intro e he hetx
+  simp only [recordSender, List.mem_map] at he
+  obtain ⟨e0, _, rfl⟩ := he
+  by_cases h0 : e0.tx = tx
+  · by_cases hp : p ∈ e0.senders <;> simp [h0, hp]
+  · simp only [h0, if_false] at hetx
+
+theorem checkTxFrom_core (s : State) (tx : Bytes) (v : Verdict) (p : Nat) :
+    (checkTxFrom s tx v p).1.txs.map (·.tx) = (checkTx s tx v).1.txs.map (·.tx) ∧
+    (checkTxFrom s tx v p).1.txsMap = (checkTx s tx v).1.txsMap ∧
+    (checkTxFrom s tx v p).1.txsBytes = (checkTx s tx v).1.txsBytes ∧
+    (checkTxFrom s tx v p).1.cfg = (checkTx s tx v).1.cfg ∧
+    (checkTxFrom s tx v p).1.cache = (checkTx s tx v).1.cache ∧
+    (checkTxFrom s tx v p).2 = (checkTx s tx v).2 := by
+  unfold checkTxFrom
+  simp only
+  split
+  · exact ⟨recordSender_map _ _ _, rfl, rfl, rfl, rfl, rfl⟩
+  · split
+    · exact ⟨recordSender_map _ _ _, rfl, rfl, rfl, rfl, rfl⟩
+    · exact ⟨rfl, rfl, rfl, rfl, rfl, rfl⟩
+  · exact ⟨rfl, rfl, rfl, rfl, rfl, rfl⟩
+
+theorem inv_checkTxFrom {s : State} (hi : Inv s) (tx : Bytes) (v : Verdict) (p : Nat) :
+    Inv (checkTxFrom s tx v p).1 := by
+  obtain ⟨h1, h2, h3, _⟩ := checkTxFrom_core s tx v p
+  have := inv_checkTx hi tx v
+  unfold Inv at *
+  obtain ⟨a, b, c⟩ := this
+  exact ⟨h1 ▸ a, by rw [h1, h2]; exact b, by rw [h1, h3]; exact c⟩
+
+theorem bounded_checkTxFrom {s : State} (hb : Bounded s) (tx : Bytes) (v : Verdict) (p : Nat) :
+    Bounded (checkTxFrom s tx v p).1 := by
+  obtain ⟨h1, _, h3, h4, _⟩ := checkTxFrom_core s tx v p
+  have := bounded_checkTx hb tx v
+  unfold Bounded at *
+  have hl : (checkTxFrom s tx v p).1.txs.length = (checkTx s tx v).1.txs.length := by
+    have := congrArg List.length h1; simpa using this
+  rw [hl, h3, h4]; exact this
+
 theorem cfg_flush (s : State) : (flush s).cfg = s.cfg := rfl
 
 theorem cfg_step (s : State) (op : Op) : (step s op).cfg = s.cfg := by
   cases op with
-  | check tx v => exact cfg_checkTx s tx v
+  | check tx v p => exact (checkTxFrom_core s tx v p).2.2.2.1.trans (cfg_checkTx s tx v)
   | update h b pre post rv => exact cfg_update s h b pre post rv
   | flush => rfl
 
@@ -407,7 +461,7 @@ theorem cfg_run (ops : List Op) : ∀ (s : State), (run s ops).cfg = s.cfg := by
 
 theorem inv_step {s : State} (hi : Inv s) (op : Op) : Inv (step s op) := by
   cases op with
-  | check tx v => exact inv_checkTx hi tx v
+  | check tx v p => exact inv_checkTxFrom hi tx v p
   | update h b pre post rv => exact inv_update hi h b pre post rv
   | flush => exact inv_flush s
 
@@ -422,7 +476,7 @@ theorem bounded_flush {s : State} (hb : Bounded s) (hv : CfgValid s.cfg) : Bound
 theorem bounded_step {s : State} (hb : Bounded s) (hv : CfgValid s.cfg) (op : Op) :
     Bounded (step s op) := by
   cases op with
-  | check tx v => exact bounded_checkTx hb tx v
+  | check tx v p => exact bounded_checkTxFrom hb tx v p
   | update h b pre post rv => exact bounded_update hb h b pre post rv
   | flush => exact bounded_flush hb hv
 
@@ -606,7 +660,7 @@ theorem cacheOK_update {n : Int} {s : State} (h : s.cache.OKn n) (ht : Int) (blo
 
 theorem cacheOK_step {n : Int} {s : State} (h : s.cache.OKn n) (op : Op) : (step s op).cache.OKn n := by
   cases op with
-  | check tx v => exact cacheOK_checkTx h tx v
+  | check tx v p => exact (checkTxFrom_core s tx v p).2.2.2.2.1 ▸ cacheOK_checkTx h tx v
   | update ht b pre post rv => exact cacheOK_update h ht b pre post rv
   | flush => exact Cache.okn_reset _ h
 
